@@ -75,6 +75,8 @@ class BuiltinMixin:
                 return len(v)
             if isinstance(v, DictV):
                 return len(v.d)
+            if isinstance(v, IterV) and fr.spec:
+                return -1          # a one-shot iterator has no length: a contract that speaks of the length of a list is not met by it
             if is_z3(v) and z3.is_string(v):
                 return z3.Length(v)
             if isinstance(v, NdV):
